@@ -234,6 +234,13 @@ class Contexts:
         ff = self.ctx.facts.analyse(run, [probe])
         sites = [c for c in calls_in_func(run) if unparse(c.func) == 'self._action']
         if not sites:
+            # the action taken into a local first (``action, self._action = self._action, None``): the call that forwards
+            # run()'s own *args / **kwargs is the one that runs the action
+            a = run.node.args
+            va, kw = (a.vararg.arg if a.vararg else None), (a.kwarg.arg if a.kwarg else None)
+            sites = [c for c in calls_in_func(run) if isinstance(c.func, ast.Name) and va and kw
+                     and any(isinstance(x, ast.Starred) and norm(x.value) == va for x in c.args) and any(k.arg is None and norm(k.value) == kw for k in c.keywords)]
+        if not sites:
             raise AnalysisError('CancellableAction.run no longer calls self._action: runner table stale')
         for c in sites:
             for n, got in ff.site_facts(c):
